@@ -40,6 +40,9 @@ def _cmp(ctx, fname, what, got, exp, scale, mask, key, extra=None):
 
 def mon_convection(args, kwargs, result, tok):
     ctx = CTX
+    if not probes.take("numflux"):
+        ctx.skip("numflux:not-sampled")
+        return
     model, name, pL, pR = args[0], args[1], args[2], args[3]
     a = model.convcoef
     L, R = np.atleast_1d(np.asarray(pL[0], float)), np.atleast_1d(np.asarray(pR[0], float))
@@ -55,6 +58,9 @@ def mon_convection(args, kwargs, result, tok):
 
 def mon_burgers(args, kwargs, result, tok):
     ctx = CTX
+    if not probes.take("numflux"):
+        ctx.skip("numflux:not-sampled")
+        return
     model, name, pL, pR = args[0], args[1], args[2], args[3]
     L, R = np.atleast_1d(np.asarray(pL[0], float)), np.atleast_1d(np.asarray(pR[0], float))
     F = np.atleast_1d(np.asarray(result[0], float))
@@ -71,6 +77,9 @@ def mon_burgers(args, kwargs, result, tok):
 
 def mon_sw(args, kwargs, result, tok):
     ctx = CTX
+    if not probes.take("numflux"):
+        ctx.skip("numflux:not-sampled")
+        return
     model, name, pL, pR = args[0], args[1], args[2], args[3]
     name = "rusanov" if name is None else name
     fname = "sw-" + ("centered" if name == "centeredflux" else name)
@@ -101,6 +110,9 @@ def mon_sw(args, kwargs, result, tok):
 
 def mon_euler(args, kwargs, result, tok):
     ctx = CTX
+    if not probes.take("numflux"):
+        ctx.skip("numflux:not-sampled")
+        return
     model, name, pL, pR = args[0], args[1], args[2], args[3]
     dirv = args[4] if len(args) > 4 else kwargs.get("dir")
     name = "hllc" if name is None else name
